@@ -749,7 +749,63 @@ func TestC09(t *testing.T) {
 		[]string{"library constants bound to codes by exported name; fields read by reflection on the exported field name"}, spec.Base)
 }
 
+// c10OptionalProduct: the complete product of the v2 optional metrics (100 temporal x 1,920
+// environmental combinations, each group also absent: 194,021 vectors) behind two base
+// vectors at the environmental decoder, and the temporal part at the temporal decoder:
+// Encode() and String() must be byte-identical to the input (light comparison; the full
+// check runs on a mismatch). The encodings differ in length (codes of one to three
+// letters), which a value sweep of one metric at a time does not vary jointly.
+func c10OptionalProduct(c *ctx) {
+	nviol := 0
+	var evals int64
+	k := 0
+	tN, eN := 100, 1920
+	for bi, b := range [][6]int{{2, 2, 2, 2, 2, 2}, {0, 1, 0, 1, 0, 1}} {
+		for ti := -1; ti < tN && nviol == 0; ti++ {
+			var t [3]int
+			if ti >= 0 {
+				t = [3]int{ti % 5, ti / 5 % 5, ti / 25 % 4}
+			}
+			for ei := -1; ei < eN && nviol == 0; ei++ {
+				k++
+				if !mine(k) || (bi == 1 && !thorough() && (k/shards)%8 != 0) {
+					continue
+				}
+				var e [5]int
+				if ei >= 0 {
+					e = [5]int{ei % 6, ei / 6 % 5, ei / 30 % 4, ei / 120 % 4, ei / 480 % 4}
+				}
+				in := gen.V2FromIdx(b, ti >= 0, t, ei >= 0, e).String()
+				lv := spec.Environmental
+				if ei < 0 && ti%2 == 0 {
+					lv = spec.Temporal
+				}
+				evals++
+				o, err := decode2(lv, in, k%3 == 0)
+				if err == nil {
+					var enc, str string
+					var eerr error
+					if lv == spec.Temporal {
+						enc, eerr = o.T.Encode()
+						str = o.T.String()
+					} else {
+						enc, eerr = o.E.Encode()
+						str = o.E.String()
+					}
+					if eerr == nil && enc == in && str == in {
+						continue
+					}
+				}
+				evalEnum(c, "vector", vecCase{Ver: 2, Level: int(lv), NilRecv: k%3 == 0, Input: in}, checkC10, &nviol)
+			}
+		}
+	}
+	c.rec.Bulk("v2-optional-product", evals, evals, map[string]int64{"v2:optional-metric-product": evals})
+}
+
 func TestC10(t *testing.T) {
+	extraStage = c10OptionalProduct
+	defer func() { extraStage = nil }()
 	vectorPropertyTest(t, "C10", checkC10, sweepRule+"Oracle: reference canonical encoder (v3: prefix, base in specification order, every temporal / environmental metric of the object's level spelled out; v2: byte-identical to the input); Encode() error must be nil; String() == Encode(); decoding the encoding with the same decoder gives an identical snapshot (fields, scores, severities, encodings). Non-trivial = input differs from its canonical form (v3) or carries an optional group (v2).",
 		[]string{"reference canonical encoder written from the property statement"}, spec.Base)
 }
